@@ -96,9 +96,15 @@ Definition chk_qbits_stoch (c : qbits) (xb ub yb : Z) : Z :=
     cmp_exact (within_steps x (qb_se c)) (f32_dec yb) (rscale (qb_code_stoch c x u) (qb_se c))
   | _, _ => 3
   end.
+(* the leaky variant rounds p * negative_slope separately for the negative side (quantizers.py:2393-2409);
+   both _round_through calls see the same injected draw in the correspondence runs *)
 Definition qr_code_stoch (c : qrelu) (x u : rat) : rat :=
   let k := qr_nsb c - qr_int c in
-  rclip (0, 1) (rofZ (qr_hi c)) (sround32 (rscale x k) u).
+  let pos := rclip (0, 1) (rofZ (qr_hi c)) (sround32 (rscale x k) u) in
+  match qr_slope c with
+  | None => pos
+  | Some s => radd pos (rclip (rofZ (qr_lo c)) (0, 1) (sround32 (rscale x (k - s)) u))
+  end.
 Definition chk_qrelu_stoch (c : qrelu) (xb ub yb : Z) : Z :=
   match f32_dec xb, f32_dec ub with
   | Some x, Some u =>
